@@ -378,6 +378,9 @@ def c06_cases(rng, tier):
              [(ADDR_C, [1], ("raw", [[]]))]]
     for c_ in rng.sample(tp, min(len(tp), 150 if tier == "quick" else 3000)):
         cases.extend(api_variants(rng, c_, 2, rng.choice(posts), k=1))
+    # (4b') graphs with deferred children through the single-mode entry points (a Checks pass on a cold cache is legal)
+    g1, _ = c01_cases(rng, "quick")
+    cases += rng.sample([c for c in g1 if c.startswith("api ")], 60 if tier == "quick" else 200)
     # (4c) VM programs whose parallel children share lazily initialised state
     cases += V.pex_race_cases()
     # (5) the byte-level decoders
@@ -563,6 +566,17 @@ def c03_case(rng, shape, read_key, n, declared, computed, pre, other_contract=Fa
         preds.append((contract, ADDR_D, (([(EDGE_MAX, sha(prog_bytes(p_sat())))]), [])))
         pbytes = pbytes + [prog_bytes(p_sat())]
     state = [(contract, list(k), list(v)) for k, v in pre.items()]
+    if getattr(c03_case, "empty_answers", False) and proposed and shape != "diamond":
+        # (not in the diamond shape: its pre-state read goes to the pre state as one ranged read, like a read of an unmutated contract)
+        # (only for a contract the set mutates: an unmutated contract's reads go to the pre state as one ranged read)
+        # a pre state that answers reads of keys it does not hold with an empty list (instead of one empty value per key)
+        k_ = list(read_key)
+        for _ in range(n):
+            if tuple(k_) not in pre:
+                state.append((contract, list(k_), ("raw", [])))
+            k_ = py_next_key(k_)
+            if k_ is None:
+                break
     case = check_case("twopass", collect_all, sols, preds, pbytes, state)
     c03_case.last_post = [(contract, list(k), list(v)) for k, v in proposed.items()] + [e for e in state if tuple(e[1]) not in proposed]
     c03_case.last_nsols = len(sols)
@@ -642,8 +656,10 @@ def c03_cases(rng, tier):
             cand = [k for k in cand if k not in used_all]
             if cand:
                 same = (list(rng.choice(cand)), [rng.randrange(500, 600)] * rng.choice([0, 1, 2]), rng.random() < 0.5)
+        c03_case.empty_answers = rng.random() < 0.3
         c, e = c03_case(rng, shape, rk, n, declared, computed, pre, other_contract=rng.random() < 0.2 and not same, collect_all=rng.random() < 0.5,
                         maddr=rng.choice([0, 0, 0, 1, 2, 257]), same_contract=same)
+        c03_case.empty_answers = False
         cases.append(c)
         oracles.append("o_expect " + expect_tok(e) + " " + c)
         if rng.random() < 0.4:
@@ -722,6 +738,19 @@ def c04_cases(rng, tier):
     cases, oracles = [], []
     # the address of a set must not depend on the order of its solution addresses, also when these share leading bytes
     cases += [c for c in addr_raw_cases(rng, tier) if c.startswith("addr_raw set")]
+    # several solutions of the SAME predicate with different predicate data: a first-pass parent pushes the solution's own
+    # data, its deferred child (post-state read) compares what it inherits with the solution's data
+    parent = [P(0), P(0), P(1), op("DATA")]
+    child = [P(2), op("ALOC"), op("POP"), P(9), P(9), P(2), P(1), P(0), op("PKRNG"), P(0), P(0), P(1), op("DATA"), op("EQ")]
+    (nodes_, edges_), pb_ = build_pred(encode_valid([[1], []]), [parent, child])
+    for datas in ([5, 6], [6, 5], [5, 6, 7], [5, 5, 6]):
+        sols_ = [(ADDR_A, ADDR_B, [[d]], []) for d in datas]
+        for pm in itertools.permutations(range(len(sols_))):
+            ps_ = [sols_[i] for i in pm]
+            for ca in (False, True):
+                c_ = check_case("twopass", ca, ps_, [(ADDR_A, ADDR_B, (nodes_, edges_))], pb_, [])
+                cases.append(c_)
+                oracles.append(f"o_ref " + expect_tok("ok " + " ".join("[]" for _ in ps_)) + " " + c_)
     # two real solutions whose content addresses share their first 8 bytes (found by a 2^32 search), with a third one, in every order
     z = bytes(32)
     pair = [(z, z, [[4236359857541326005]], []), (z, z, [[4766575786782499924]], []), (bytes([3]) * 32, bytes([7]) * 32, [[3, 4]], [([3], [42])])]
